@@ -16,8 +16,8 @@ FUNCS = ['androguard.core.analysis.analysis.Analysis.add', 'Analysis.create_xref
 EXT_FIELDS = [('Ljava/lang/System;', 'out', 'Ljava/io/PrintStream;')]
 EXT_METHODS = [('Ljava/lang/Object;', '<init>', 'V', ()), ('Ljava/lang/String;', 'length', 'I', ()),
                ('[I', 'clone', 'Ljava/lang/Object;', ()), ('[Ljava/lang/String;', 'clone', 'Ljava/lang/Object;', ())]
-STRINGS = ['s-one', 's-two']
-TYPES = ['LB;', 'Ljava/lang/Object;', '[I', '[LB;', 'LA;']
+STRINGS = ['s-one', 's-two', '', ' ']
+TYPES = ['LB;', 'Ljava/lang/Object;', '[I', '[LB;', 'LA;', '[[LB;', '[[[Ljava/lang/String;', '[[J']
 
 # template of LA;->m1 : (kind, opcode, units, which table)
 SLOTS = [
@@ -527,7 +527,7 @@ def snap_diff(a, b):
 def run16(ctx):
     setup()
     ctx.functions_encoded = FUNCS
-    groups = ['fields', 'methods', 'strings+types'] + (['fields2', 'methods2', 'methods3', 'jumbo+types'] if ctx.thorough else [])
+    groups = ['fields', 'methods', 'jumbo+types'] + (['fields2', 'methods2', 'methods3', 'strings+types'] if ctx.thorough else [])
     ctx.bounds = dict(class_set='LA; + LB; as one DEX, and as two DEX files added in both orders',
                       symbolic='the operands of one slot group, mapped through each file\'s own index space by an ite chain over the same variable',
                       groups=groups)
